@@ -1014,7 +1014,7 @@ def run(ctx):
         eval_forests(ctx, forests[i:i + 2000])
     eval_codec(ctx, gen_codec(ctx.rng, n_codec))
     eval_loads(ctx, gen_load_cases(ctx, n_load))
-    eval_loads(ctx, gen_load_cases(ctx, ctx.scale(40, 400) * mult, lost=True))
+    eval_loads(ctx, gen_load_cases(ctx, ctx.scale(30, 300) * mult, lost=True))
 
 
 def replay(ctx, payload):
